@@ -128,3 +128,10 @@ Theorem C04_exact_lookup_spec : forall lexs q ids,
   forall w, In w ids <-> exists l, lookup_set lexs q 0 = Some l /\ In (w, N.of_nat (length q)) l.
 Proof. exact exact_lookup_spec. Qed.
 Print Assumptions C04_exact_lookup_spec.
+
+(* ... each exactly once: on a certified dictionary no entry is reported twice, for every byte text and offset *)
+Theorem C04_lookup_once_of_certificate : forall L rows fuel,
+  cert_lex L rows fuel = true ->
+  forall dic text off l, dic < 16 -> bytes text -> lex_lookup L dic text off = Some l -> NoDup l.
+Proof. exact (fun L rows fuel => lex_lookup_nodup_of_cert L rows fuel C04_fact_layout). Qed.
+Print Assumptions C04_lookup_once_of_certificate.
